@@ -169,6 +169,8 @@ class MemPrims:
                 if "Enumerate" in g:
                     val = ("agg", "tuple", None, (A.W(("enum_idx",), 64), val))
                 return [(A.SOME(val), path), (A.NONE, p2)]
+        if short in ("deref", "deref_mut", "as_slice", "as_mut_slice") and args and ("Vec" in name or "slice" in name):
+            return [(args[0], path)]  # a view of the same storage: no effect of its own
         if short in ("iter", "iter_mut", "into_iter", "enumerate", "rev") and args:
             return [(("iter", self_norm(I, path, args[0])), path)]
         if short == "next" and "Iterator" in (t["f"].get("def") or name) and args:
